@@ -229,6 +229,26 @@ SPELLINGS = [('sum(b)', 'SUM(b)'), ('a * 2', 'a*2'), ("'s'", '"s"'), ('1.0', '1.
              ('a IS NULL', 'a is null')]
 
 
+@cond('C07.star.subquery-aliases', quick=60,
+      bounds='SELECT * FROM (SELECT a AS <alias>, b AS other, k AS <alias2> FROM #t) for aliases with a leading / trailing underscore, '
+             'digits, upper case, a single character, a keyword look-alike: every inner output column, in order',
+      symbolic='(none)', enumerated='alias pair', params={'i': int, 'j': int})
+def star_subquery_aliases(i, j):
+    aliases = ['_year', 'year_', '__', 'x1', 'Total', 'q', 'selected', '_']
+    a1, a2 = pick(aliases, i), pick(aliases, j)
+    assume(a1.lower() != a2.lower())
+
+    def run():
+        conn = connect(t=HTable('t', COLUMNS, [(1, 2, 0)]))
+        cur = conn.execute(f'SELECT * FROM (SELECT a AS {a1}, b AS other, k AS {a2} FROM #t)')
+        if [c.name for c in cur.description] != [a1.lower(), 'other', a2.lower()]:     # (identifiers are lower-cased by the parser)
+            return f'wildcard-over-subquery-columns: {[c.name for c in cur.description]}'
+        if cur.fetchall() != [(1, 2, 0)]:
+            return 'rows'
+        return 'ok'
+    return native(run)
+
+
 @cond('C07.name.cursor-reuse', quick=60,
       bounds=f'one cursor executing SELECT <e1> FROM #t and then SELECT <e2> FROM #t where e1, e2 are spellings of equal trees '
              f'({SPELLINGS}), in either order: each result is named by the exact source text of its own statement and holds its own value',
